@@ -238,6 +238,14 @@ func (r *Run) Violation(key, what string, detail any) {
 	fmt.Printf("  what: %s\n  key: %s\n", printable(what), printable(key))
 }
 
+// Saturated reports that enough violations were recorded to stop exploring
+// (a run that is already failing need not pay for more watchdog timeouts).
+func (r *Run) Saturated() bool {
+	r.mu.Lock()
+	defer r.mu.Unlock()
+	return r.nViolations >= 25
+}
+
 // Violations returns how many (unknown) violations were recorded.
 func (r *Run) Violations() int64 {
 	r.mu.Lock()
